@@ -1,7 +1,7 @@
 """C11 -- ACL authorization: first match wins over the lineage, default deny."""
 import os
 from harness.common import facts as F
-from harness.c11 import translate
+from harness.c11 import translate, entry
 
 ID = 'C11'
 HERE = os.path.dirname(os.path.abspath(__file__))
@@ -22,6 +22,9 @@ TRUSTED = ['translator harness/c11/translate.py: its PRIMITIVE TABLE (which Pyth
            'source on every run and proved equal to the reference model (C11_generated_*_is_model)',
            'primitives of coq/Model/C11_base.v (sets as duplicate-free lists, perm_in, is_allow/is_deny, decision) as models of '
            'the Python operations the table maps to them',
+           'public entry points: ACLAuthorizationPolicy is translated (delegation); request.has_permission, LegacySecurityPolicy.permits, '
+           'security.principals_allowed_by_permission / view_execution_permitted are name-blanked shape pins + exercised in a real '
+           'registry by every case (harness/c11/entry.py)',
            'pyramid.location.lineage, is_nonstr_iter, AllPermissionsList.__contains__, ACLPermitsResult/ACLAllowed/ACLDenied '
            '(shape-pinned, modelled by hand / by the table)']
 
@@ -33,6 +36,7 @@ FORMS = (False, True, 'gen', 'tuple')     # values of loc['callable']: list / ca
 def facts(src):
     problems = []
     summary = F.check_shapes(src, os.path.join(HERE, 'pins.json'), problems)
+    summary.update(entry.check(src, problems))          # name-blanked pins of the pyramid.security entry points
     vals = {}
     try:
         m = F.Module(src, 'pyramid/security.py')
@@ -175,13 +179,15 @@ def to_wire(case):
 
 
 def from_wire(case, raw):
-    if raw == [['bad']] or len(raw) != 6:
+    if raw == [['bad']] or len(raw) != 8:
         return {'model': ['MODEL-BAD', raw], 'spec': None}
-    dec, allowed, spec_granted, wf, hdec, hallowed = raw
+    dec, allowed, spec_granted, wf, hdec, hallowed, pdec, pallowed = raw
     # the model that is compared with the implementation is the program REGENERATED from the source;
     # the third spec component records whether the hand-written reference model answers the same
     # (always 1 while C11_generated_*_is_model compile)
-    model = [dec, sorted(allowed)]
+    # [ACLHelper; ACLAuthorizationPolicy; request.has_permission + security.principals_allowed_by_permission (legacy
+    #  policies in a real registry: they end in ACLAuthorizationPolicy); view_execution_permitted]
+    model = [dec, sorted(allowed), pdec, sorted(pallowed), pdec, sorted(pallowed), pdec]
     same = 1 if (dec == hdec and sorted(allowed) == sorted(hallowed)) else 0
     return {'model': model, 'spec': [spec_granted, wf, same]}
 
@@ -192,7 +198,7 @@ _impl = {}
 
 def setup(tier):
     from pyramid.authorization import ACLHelper, ALL_PERMISSIONS, Allow, Deny
-    _impl.update(helper=ACLHelper(), ALL=ALL_PERMISSIONS, Allow=Allow, Deny=Deny)
+    _impl.update(helper=ACLHelper(), ALL=ALL_PERMISSIONS, Allow=Allow, Deny=Deny, world=entry.World(PERMS))
 
 
 class _Loc:
@@ -239,45 +245,72 @@ def _build(case):
     return locs
 
 
+def _dec(r, locs):
+    """canonical form of a permits result: [granted] for the default deny, [granted, location index, ACE index]"""
+    if not hasattr(r, 'ace'):
+        return [1 if r else 0, 'not-an-acl-result']
+    if isinstance(r.ace, str):
+        return [1 if r else 0]
+    d = [i for i, o in enumerate(locs) if o is r.context][0]
+    i = [k for k, e in enumerate(locs[d]._aces) if e is r.ace][0]
+    return [1 if r else 0, d, i]
+
+
+def _deciders():
+    h, w = _impl['helper'], _impl['world']
+    return [lambda c, ps, p: h.permits(c, ps, p),
+            lambda c, ps, p: w.policy.permits(c, ps, p),
+            lambda c, ps, p: w.has_permission(c, ps, p),
+            lambda c, ps, p: w.view_execution_permitted(c, ps, p)]
+
+
+def _reporters():
+    h, w = _impl['helper'], _impl['world']
+    return [lambda c, p: h.principals_allowed_by_permission(c, p),
+            lambda c, p: w.policy.principals_allowed_by_permission(c, p),
+            lambda c, p: w.principals_allowed(c, p)]
+
+
 def run_impl(case):
     if not _impl:
         setup('quick')
     locs = _build(case)
-    h = _impl['helper']
-    try:
-        r = h.permits(locs[0], list(case['principals']), case['permission'])
-        if isinstance(r.ace, str):
-            dec = [1 if r else 0]
-        else:
-            d = [i for i, o in enumerate(locs) if o is r.context][0]
-            i = [k for k, e in enumerate(locs[d]._aces) if e is r.ace][0]
-            dec = [1 if r else 0, d, i]
-    except Exception as e:
-        dec = ['EXC', type(e).__name__]
-    try:
-        allowed = sorted(h.principals_allowed_by_permission(locs[0], case['permission']))
-    except Exception as e:
-        allowed = ['EXC', type(e).__name__]
-    return [dec, allowed]
+    decs, sets = [], []
+    for f in _deciders():
+        try:
+            decs.append(_dec(f(locs[0], list(case['principals']), case['permission']), locs))
+        except Exception as e:
+            decs.append(['EXC', type(e).__name__])
+    for f in _reporters():
+        try:
+            sets.append(sorted(f(locs[0], case['permission'])))
+        except Exception as e:
+            sets.append(['EXC', type(e).__name__])
+    return [decs[0], sets[0], decs[1], sets[1], decs[2], sets[2], decs[3]]
 
 
 # ------------------------------------------------------------ judging
 def spec_holds(case, obs, spec):
-    """Property: decision = first matching ACE (spec_granted); every reported principal,
-    presented with Everyone, is granted (checked against the implementation itself)."""
+    """Property, for every public entry point: decision = first matching ACE (spec_granted); every reported principal,
+    presented with Everyone, is granted (checked against the same entry point of the implementation)."""
     if spec is None:
         return None
     spec_granted, wf = spec[0], spec[1]
-    dec, allowed = obs
-    if dec and dec[0] == 'EXC':
-        return False
-    if (dec[0] == 1) != (spec_granted == 1):
-        return False
-    if wf and allowed and allowed[0] != 'EXC':
-        locs = _build(case)
-        for q in allowed:
-            if not _impl['helper'].permits(locs[0], [q, 'system.Everyone'], case['permission']):
+    for dec in (obs[0], obs[2], obs[4], obs[6]):
+        if dec and dec[0] == 'EXC':
+            return False
+        if (dec[0] == 1) != (spec_granted == 1):
+            return False
+    if wf:
+        deciders = _deciders()
+        locs = None
+        for k, allowed in enumerate((obs[1], obs[3], obs[5])):
+            if allowed and allowed[0] == 'EXC':
                 return False
+            for q in allowed:
+                locs = locs or _build(case)
+                if not deciders[k](locs[0], [q, 'system.Everyone'], case['permission']):
+                    return False
     return True
 
 
@@ -313,7 +346,8 @@ LEVEL_TEXT = ('Machine-checked theorems, for lineages and ACLs of any size, stat
               'loop, that the regenerated program is the hand-written reference model; a semantics-preserving rewrite of the '
               'methods (renamed locals, `if a: if b:` vs `if a and b:`, elif vs nested if, independent tests/statements moved) '
               'regenerates a different term and the same proofs go through, a change of meaning makes them fail. The extracted '
-              'regenerated program is run differentially against ACLHelper, with ACL objects given as lists, tuples, callables '
+              'regenerated program is run differentially against ACLHelper, through ACLHelper, ACLAuthorizationPolicy, request.has_permission (legacy '
+              'policies), security.principals_allowed_by_permission and view_execution_permitted, with ACL objects given as lists, tuples, callables '
               'and generator methods (one-shot iterators).')
 LEVEL_NOTE = ('Trusted: Coq kernel; the translator (mechanical control-flow rules + the primitive table in the docstring of '
               'harness/c11/translate.py -- the table is the trusted part; anything outside subset/table is a broken tie, never a '
